@@ -214,13 +214,13 @@ pub(crate) fn convert(k: u32, shape: [L; 3], track: bool) {
             assert!(img[2] == status_byte(ext), "C28: market status not preserved");
             match lut {
                 None => {
-                    assert!(img[1] == 0b001, "C28: flags without last-update tracking must be {Open}");
+                    assert!(img[1] == 0b001, "C28: flags without last-update tracking must be (Open)");
                     assert!(fp.last_update_diff_secs().is_none());
                 }
                 Some(l) => {
                     let diff_ns = if obs_ns >= l as u128 { obs_ns - l as u128 } else { 0 };
                     // obs < 2^32 s, so the age is below 2^32 s: always representable, always open
-                    assert!(img[1] == 0b111, "C28: flags with last-update tracking must be {Open, Enabled, Secs}");
+                    assert!(img[1] == 0b111, "C28: flags with last-update tracking must be (Open, Enabled, Secs)");
                     match fp.last_update_diff_secs() {
                         Some(secs) => {
                             assert!((secs == 0) == (diff_ns == 0), "C28: last-update age zero-ness wrong");
@@ -282,7 +282,7 @@ pub(crate) fn last_update_age_window(s: u32) {
         Ok(fp) => {
             assert!(fp.last_update_diff_secs() == Some(s), "C28: last-update age mis-rounded");
             let img: [u8; 64] = bytemuck::cast(fp);
-            assert!(img[1] == 0b111, "C28: flags with last-update tracking must be {Open, Enabled, Secs}");
+            assert!(img[1] == 0b111, "C28: flags with last-update tracking must be (Open, Enabled, Secs)");
         }
         Err(_) => assert!(false, "C28: well-formed report rejected"),
     }
